@@ -1,6 +1,7 @@
 import ElexModel.Driver.Util
 import ElexModel.Core.BootAgg
 import ElexModel.Gen.C06
+import ElexModel.Core.BootErr
 import ElexModel.Gen.C07
 
 open Lean ElexModel.Driver
@@ -77,6 +78,14 @@ def run (op : String) (j : Json) : Except String Json := do
                      ratToJson (Gen.C06.clip_errors_B_4 zBar rz yl yu zl zu w),
                      ratToJson (Gen.C06.clip_weighted_yz_test_pred yBar zBar yl yu zl zu w),
                      ratToJson (Gen.C06.clip_weighted_z_test_pred zBar yl yu zl zu w)])
+  | "boot.epsilon" =>
+    -- contest effects and unit-level rests of a list of (contest, residual) pairs; `k` contests
+    let cs ← listOf natOfJson (← field j "contests")
+    let rs ← listOf ratOfJson (← field j "residuals")
+    let k ← natOfJson (← field j "k")
+    let prs := cs.zip rs
+    pure (Json.mkObj [("epsilon", listToJson ratToJson ((List.range k).map (BootErr.epsilon prs))),
+                      ("delta", listToJson ratToJson (BootErr.delta prs))])
   | "boot.quantile" =>
     let xs ← listOf ratOfJson (← field j "xs")
     let q ← ratOfJson (← field j "q")
